@@ -376,3 +376,189 @@ Proof.
       * inversion Hn; subst gw'. rewrite Nat.add_0_r. exact Hcell'.
       * rewrite <- Nat.add_succ_comm. eapply IH; [exact Htail'| |exact Hn]. apply Hkeep. exact Hng.
 Qed.
+
+(* ---- every call keeps ghost and heap in agreement; the discipline implies the calls' preconditions ------------------------ *)
+Lemma agree_stable : forall g h h', agree g h -> stable h h' -> agree g h'.
+Proof.
+  intros g h h' [L C] S. constructor; [rewrite (st_nextw h h' S); exact L|].
+  intros i gw Hn. specialize (C i gw Hn). pose proof (st_wins h h' S (addr_of i)) as W.
+  destruct (findw h (addr_of i)) as [c|], (findw h' (addr_of i)) as [c'|]; try contradiction; auto.
+  destruct W as [W1 [W2 _]]. destruct C as [C1 C2]. cbn. split; congruence.
+Qed.
+
+Lemma gusable_entry : forall g i, gusable g i = true -> gheld g i = true.
+Proof. intros g i H. unfold gusable in H. apply andb_prop in H. destruct H as [H _]. apply andb_prop in H. tauto. Qed.
+
+Lemma step_agree : forall g h o g',
+  hinv [] h -> agree g h -> event_free_op o = true -> gstep g o = Some g' ->
+  op_pre h o /\ (forall h', eff o h h' -> agree g' h').
+Proof.
+  intros g h o g' HI AG Hef Hstep.
+  destruct o; cbn in Hef; try discriminate; cbn [gstep] in Hstep; cbn [op_pre eff].
+  - (* ONew *)
+    destruct (gusable g (idx p)) eqn:Hu; [|discriminate]. inversion Hstep; subst g'. clear Hstep.
+    pose proof (agree_usable_live g h AG (idx p) Hu) as Hl. rewrite addr_idx in Hl. split; [exact Hl|].
+    intros h' [Hnw [Hold [Hdom [cw [p' [G1 [G2 [G3 G4]]]]]]]].
+    set (pi := if rootparent then gtop g (idx p) else idx p).
+    assert (Hpi : addr_of pi = p').
+    { unfold pi. destruct rootparent; [|rewrite G4; apply addr_idx].
+      destruct G4 as [ct [A1 [A2 A3]]].
+      assert (Hlt : (idx p < S (length g))%nat).
+      { destruct (agree_live_entry g h HI AG p Hl) as [gw Hn].
+        assert (Hlen : (idx p < length g)%nat) by (apply nth_error_Some; congruence). lia. }
+      assert (Hl' : findw h (addr_of (idx p)) <> None) by (rewrite addr_idx; exact Hl).
+      destruct (agree_top g h HI AG (S (length g)) (idx p) Hlt Hl') as [ct' [B1 [B2 B3]]].
+      rewrite addr_idx in B3. unfold gtop.
+      destruct (anc_linear h p p' A1 _ B3) as [H|H].
+      - exact (anc_top h p' _ ct H A2 A3).
+      - symmetry. exact (anc_top h _ p' ct' H B1 B2). }
+    constructor.
+    + rewrite Hnw, (ag_len g h AG), app_length. cbn. rewrite Nat.add_1_r. apply addr_succ.
+    + intros i gw Hn. destruct (Nat.lt_ge_cases i (length g)) as [Hlt|Hge].
+      * rewrite nth_error_app1 in Hn by exact Hlt. pose proof (ag_cells g h AG i gw Hn) as C.
+        destruct (findw h (addr_of i)) as [c|] eqn:Hf.
+        -- destruct (Hold _ c Hf) as [c' [H1 [H2 H3]]]. rewrite H1. destruct C as [C1 C2]. cbn. split; congruence.
+        -- rewrite Hdom; auto. rewrite (ag_len g h AG). intro E. apply addr_inj in E. lia.
+      * rewrite nth_error_app2 in Hn by exact Hge. destruct (i - length g)%nat as [|d] eqn:Ed; cbn in Hn.
+        -- inversion Hn; subst gw. assert (i = length g) by lia. subst i. rewrite <- (ag_len g h AG). rewrite G1.
+           cbn. split; [congruence|]. fold pi. rewrite Hpi. congruence.
+        -- destruct d; discriminate.
+  - (* ORef *)
+    destruct (gheld g (idx w)) eqn:Hh; [|discriminate]. inversion Hstep; subst g'. clear Hstep.
+    pose proof (agree_held_live g h AG (idx w) Hh) as Hl. rewrite addr_idx in Hl. split; [exact Hl|].
+    intros h' [Hnw Hx]. unfold gupd.
+    destruct (agree_live_entry g h HI AG w Hl) as [gw Hgw]. unfold gget. rewrite Hgw.
+    constructor; [rewrite Hnw, length_gset; exact (ag_len g h AG)|].
+    intros i gi Hn. rewrite nth_gset in Hn. specialize (Hx (addr_of i)).
+    destruct (Nat.eqb i (idx w)) eqn:E.
+    + apply Nat.eqb_eq in E. subst i. rewrite Hgw in Hn. inversion Hn; subst gi. rewrite addr_idx in *.
+      pose proof (ag_cells g h AG (idx w) gw Hgw) as C. rewrite addr_idx in C.
+      destruct (findw h w) as [c|]; [|congruence]. destruct (findw h' w) as [c'|]; [|contradiction].
+      rewrite Pos.eqb_refl in Hx. destruct Hx as [X1 X2]. destruct C as [C1 C2]. cbn. split; [lia|congruence].
+    + apply Nat.eqb_neq in E. pose proof (ag_cells g h AG i gi Hn) as C.
+      assert (Ea : Pos.eqb (addr_of i) w = false).
+      { apply Pos.eqb_neq. intro Ea. apply E. rewrite <- Ea. symmetry. apply idx_addr. }
+      rewrite Ea in Hx. destruct (findw h (addr_of i)) as [c|], (findw h' (addr_of i)) as [c'|]; try contradiction; auto.
+      destruct Hx as [X1 X2]. destruct C as [C1 C2]. cbn. split; congruence.
+  - (* OUnref *)
+    unfold gget in Hstep. destruct (nth_error g (idx w)) as [x|] eqn:Hgw; [|discriminate].
+    destruct (0 <? g_cnt x) eqn:Hpos; [|discriminate]. apply Z.ltb_lt in Hpos.
+    pose proof (ag_cells g h AG (idx w) x Hgw) as C. rewrite addr_idx in C.
+    destruct (findw h w) as [c|] eqn:Hw; [|destruct C; lia]. destruct C as [C1 C2].
+    split; [congruence|]. intros h' [Hnw [Hdead Hx]]. destruct (Hx c Hw) as [X1 X2].
+    destruct (g_cnt x =? 1) eqn:E1.
+    + apply Z.eqb_eq in E1. inversion Hstep; subst g'. clear Hstep.
+      destruct (X1 ltac:(lia)) as [Ft Hwd]. unfold gdestroy.
+      constructor; [rewrite Hnw, length_gdestroy_pass; exact (ag_len g h AG)|].
+      intros i gi Hn.
+      pose proof (gdestroy_pass_agree g h h' w c HI AG Hw Ft Hwd Hdead g 0%nat []) as P.
+      apply (P (fun k gw Hk => Hk)); [|exact Hn].
+      intro j. split; [intros []|intros [Hlt _]; lia].
+    + apply Z.eqb_neq in E1. inversion Hstep; subst g'. clear Hstep.
+      assert (Hne : w_ref c <> 1) by lia. specialize (X2 Hne).
+      constructor; [rewrite Hnw, length_gset; exact (ag_len g h AG)|].
+      intros i gi Hn. rewrite nth_gset in Hn. specialize (X2 (addr_of i)).
+      destruct (Nat.eqb i (idx w)) eqn:E.
+      * apply Nat.eqb_eq in E. subst i. rewrite Hgw in Hn. inversion Hn; subst gi. rewrite addr_idx in *.
+        rewrite Hw in X2. destruct (findw h' w) as [c'|]; [|contradiction].
+        rewrite Pos.eqb_refl in X2. destruct X2 as [Y1 Y2]. cbn. split; [lia|congruence].
+      * apply Nat.eqb_neq in E. pose proof (ag_cells g h AG i gi Hn) as Ci.
+        assert (Ea : Pos.eqb (addr_of i) w = false).
+        { apply Pos.eqb_neq. intro Ea. apply E. rewrite <- Ea. symmetry. apply idx_addr. }
+        rewrite Ea in X2. destruct (findw h (addr_of i)) as [ci|], (findw h' (addr_of i)) as [ci'|]; try contradiction; auto.
+        destruct X2 as [Y1 Y2]. destruct Ci as [D1 D2]. cbn. split; congruence.
+  - (* OClose *)
+    unfold gget in Hstep. destruct (nth_error g (idx w)) as [x|] eqn:Hgw; [|discriminate].
+    destruct ((0 <? g_cnt x) && match g_par x with Some _ => true | None => Nat.eqb (idx w) 0 end) eqn:Hc; [|discriminate].
+    inversion Hstep; subst g'. clear Hstep. apply andb_prop in Hc. destruct Hc as [Hpos _]. apply Z.ltb_lt in Hpos.
+    pose proof (ag_cells g h AG (idx w) x Hgw) as C. rewrite addr_idx in C.
+    destruct (findw h w) as [c|] eqn:Hw; [|destruct C; lia]. split; [congruence|].
+    intros h' [Hnw [Hdead [Hoth [cw [cw' [G1 [G2 [G3 G4]]]]]]]]. rewrite Hw in G1. inversion G1; subst cw.
+    constructor; [rewrite Hnw, length_gset; exact (ag_len g h AG)|].
+    intros i gi Hn. rewrite nth_gset in Hn. destruct (Nat.eqb i (idx w)) eqn:E.
+    + apply Nat.eqb_eq in E. subst i. rewrite Hgw in Hn. inversion Hn; subst gi. rewrite addr_idx. rewrite G2.
+      destruct C as [C1 C2]. cbn. split; congruence.
+    + apply Nat.eqb_neq in E. pose proof (ag_cells g h AG i gi Hn) as Ci.
+      assert (Ea : addr_of i <> w) by (intro Ea; apply E; rewrite <- Ea; symmetry; apply idx_addr).
+      destruct (findw h (addr_of i)) as [ci|] eqn:Hfi.
+      * destruct (Hoth _ ci Ea Hfi) as [ci' [H1 [H2 H3]]]. rewrite H1. destruct Ci as [D1 D2]. cbn. split; congruence.
+      * rewrite (Hdead _ Hfi). exact Ci.
+  - (* ORestack *)
+    destruct (is_restack c && gusable g (idx w)) eqn:Hc; [|discriminate]. inversion Hstep; subst g'.
+    apply andb_prop in Hc. destruct Hc as [Hrs Hu].
+    pose proof (agree_usable g h AG (idx w) Hu) as Ha. rewrite addr_idx in Ha.
+    pose proof (anc_live_l h w root Ha) as Hl. destruct (live_some h w Hl) as [cw Hw].
+    split; [split; [exact Hrs|exists cw; auto]|]. intros h' S. eapply agree_stable; eauto.
+  - destruct (gusable g (idx w)) eqn:Hu; [|discriminate]. inversion Hstep; subst g'.
+    pose proof (agree_usable_live g h AG (idx w) Hu) as Hl. rewrite addr_idx in Hl.
+    split; [exact Hl|]. intros h' S. eapply agree_stable; eauto.
+  - destruct (gusable g (idx w)) eqn:Hu; [|discriminate]. inversion Hstep; subst g'.
+    pose proof (agree_usable_live g h AG (idx w) Hu) as Hl. rewrite addr_idx in Hl.
+    split; [exact Hl|]. intros h' S. eapply agree_stable; eauto.
+  - destruct (gusable g (idx w)) eqn:Hu; [|discriminate]. inversion Hstep; subst g'.
+    pose proof (agree_usable g h AG (idx w) Hu) as Ha. rewrite addr_idx in Ha.
+    split; [exact Ha|]. intros h' S. eapply agree_stable; eauto.
+  - destruct (gusable g (idx w)) eqn:Hu; [|discriminate]. inversion Hstep; subst g'.
+    pose proof (agree_usable_live g h AG (idx w) Hu) as Hl. rewrite addr_idx in Hl.
+    split; [exact Hl|]. intros h' S. eapply agree_stable; eauto.
+  - destruct (gusable g (idx w)) eqn:Hu; [|discriminate]. inversion Hstep; subst g'.
+    pose proof (agree_usable_live g h AG (idx w) Hu) as Hl. rewrite addr_idx in Hl.
+    split; [exact Hl|]. intros h' S. eapply agree_stable; eauto.
+  - destruct (gusable g (idx w)) eqn:Hu; [|discriminate]. inversion Hstep; subst g'.
+    pose proof (agree_usable g h AG (idx w) Hu) as Ha. rewrite addr_idx in Ha.
+    split; [exact Ha|]. intros h' S. eapply agree_stable; eauto.
+  - destruct (Nat.eqb (idx w) 0 && gusable g 0) eqn:Hc; [|discriminate]. inversion Hstep; subst g'.
+    apply andb_prop in Hc. destruct Hc as [E0 Hu]. apply Nat.eqb_eq in E0.
+    assert (Ew : w = root) by (rewrite <- (addr_idx w), E0; reflexivity).
+    pose proof (agree_usable_live g h AG 0%nat Hu) as Hl.
+    split; [split; [exact Ew|exact Hl]|]. intros h' S. eapply agree_stable; eauto.
+  - destruct (gusable g (idx w)) eqn:Hu; [|discriminate]. inversion Hstep; subst g'.
+    pose proof (agree_usable_live g h AG (idx w) Hu) as Hl. rewrite addr_idx in Hl.
+    split; [exact Hl|]. intros h' S. eapply agree_stable; eauto.
+  - inversion Hstep; subst g'. split; [exact I|]. intros h' S. eapply agree_stable; eauto.
+Qed.
+
+(* ---- whole histories ------------------------------------------------------------------------------------------------------- *)
+Lemma run_agree : forall fuel l g h k gf,
+  hinv [] h -> agree g h -> forallb event_free_op l = true -> gcheck g l = Some gf ->
+  match run_script_from fixed fuel l k h with
+  | VOk h' => hinv [] h' /\ agree gf h'
+  | VFault _ _ _ => False
+  | VNoFuel _ => True
+  end.
+Proof.
+  intros fuel l. induction l as [|o l IH]; intros g h k gf HI AG Hef Hg; cbn in *.
+  - inversion Hg; subst gf. auto.
+  - apply andb_prop in Hef. destruct Hef as [Hef1 Hef2].
+    destruct (gstep g o) as [g1|] eqn:Hs; [|discriminate].
+    destruct (step_agree g h o g1 HI AG Hef1 Hs) as [Hpre Hag].
+    pose proof (run_op_ok fuel o h HI Hef1 Hpre) as Hok.
+    pose proof (run_op_eff fuel o h HI Hef1 Hpre) as Heff.
+    destruct (run_op fixed fuel o h) as [u h'| |]; [|contradiction|exact I].
+    apply (IH g1 h' (S k) gf Hok (Hag h' Heff) Hef2 Hg).
+Qed.
+
+(* For every event-free history that the heap-independent discipline accepts, of any length and with
+   any fuel, the model never faults. *)
+Theorem wf_no_fault : forall fuel l,
+  forallb event_free_op l = true -> wf_client l = true -> fault_of (run_script fixed fuel l) = None.
+Proof.
+  intros fuel l Hef Hwf. unfold wf_client in Hwf. destruct (gcheck g0 l) as [gf|] eqn:Hg; [|discriminate].
+  pose proof (run_agree fuel l g0 (heap0 fixed) O gf hinv_heap0 agree_init Hef Hg) as H.
+  unfold run_script. destruct (run_script_from fixed fuel l O (heap0 fixed)); cbn; auto. contradiction.
+Qed.
+
+(* ... and once the discipline says that every reference has been dropped, nothing is allocated. *)
+Theorem wf_all_released : forall fuel l gf h,
+  forallb event_free_op l = true -> gcheck g0 l = Some gf -> all_dropped gf = true ->
+  run_script fixed fuel l = VOk h -> heap_empty h = true.
+Proof.
+  intros fuel l gf h Hef Hg Hd Hrun.
+  pose proof (run_agree fuel l g0 (heap0 fixed) O gf hinv_heap0 agree_init Hef Hg) as H.
+  unfold run_script in Hrun. rewrite Hrun in H. destruct H as [HI AG].
+  apply all_released; auto. intros a c Hf. exfalso.
+  destruct (agree_live_held gf h HI AG a c Hf) as [gw [Hn [_ [_ Hpos]]]].
+  unfold all_dropped in Hd. rewrite forallb_forall in Hd.
+  assert (Hin : In gw gf) by (eapply nth_error_In; eauto).
+  specialize (Hd gw Hin). apply Z.eqb_eq in Hd. lia.
+Qed.
